@@ -9,7 +9,8 @@ O5 == O4 + NLastWord
 O6 == O5 + NLayouts
 O7 == O6 + NOneHot
 O8 == O7 + NSweep
-Count == O8 + NPolyWords
+O9 == O8 + NPolyWords
+Count == O9 + NExtWords
 ItemAt(g) ==
   IF g <= O1 THEN CountsAt(g)
   ELSE IF g <= O2 THEN FlipsAt(g - O1)
@@ -19,7 +20,8 @@ ItemAt(g) ==
   ELSE IF g <= O6 THEN LayoutAt(g - O5)
   ELSE IF g <= O7 THEN OneHotAt(g - O6)
   ELSE IF g <= O8 THEN SweepAt(g - O7)
-  ELSE PolyWordAt(g - O8)
+  ELSE IF g <= O9 THEN PolyWordAt(g - O8)
+  ELSE ExtWordAt(g - O9)
 Histories == IF "VERIF_TIER" \in DOMAIN IOEnv /\ IOEnv.VERIF_TIER = "thorough" THEN 300 ELSE 40
 VARIABLE n
 INSTANCE GenBase
